@@ -4,6 +4,7 @@
 (*   MC_TtyLock_{q,s,g}_dump.cfg  quick models with the edge dump (spec -> code replay): q as   *)
 (*                         above; s = two starts by one thread (else-branch of the wrapper);   *)
 (*                         g = a child starts a grandchild                                      *)
+(*   MC_TtyLock_y_dump.cfg configuration: _queries_enabled TRUE / FALSE at the first start, one toggle    *)
 (*   MC_TtyLock_cell.cfg   the `_cell_size_lock` instance (no nesting, no extra read), + dump   *)
 (*   MC_TtyLock_d.cfg, MC_TtyLock_race.cfg   medium models (thorough)                          *)
 (*   MC_TtyLock_big_dump.cfg  the big model with the edge dump, used with -simulate            *)
@@ -18,6 +19,10 @@ Start(c) == [k |-> "start", d |-> 0, c |-> c]
 \* quick: parent threads 1 (plain call), 2 (nested call), 3 (starts child 1, then calls); child thread 4
 QProcOf == <<0, 0, 0, 1>>
 QProg == << <<Call(1)>>, <<Call(2)>>, <<Start(1)>>, <<Call(1)>> >>
+
+\* configuration model: queries enabled / disabled at the first start, toggled once at any moment
+YProcOf == <<0, 0, 1>>
+YProg == << <<Call(1)>>, <<Start(1)>>, <<Call(1)>> >>
 
 \* replayed model: as quick; the starter also makes a call after starting
 DProcOf == <<0, 0, 0, 1, 2>>
